@@ -75,7 +75,26 @@ fn parse() -> Args {
     a
 }
 
+/// Panics inside the subject are observations (caught at the dispatch boundary), so their
+/// messages are silenced unless CVH_PANIC is set (debugging the harness itself).
+pub fn quiet_panics() {
+    if std::env::var_os("CVH_PANIC").is_none() {
+        std::panic::set_hook(Box::new(|_| {}));
+    }
+}
+
+fn raise_fd_limit() {
+    unsafe {
+        let mut r = libc::rlimit { rlim_cur: 0, rlim_max: 0 };
+        if libc::getrlimit(libc::RLIMIT_NOFILE, &mut r) == 0 {
+            r.rlim_cur = r.rlim_max.min(1 << 20);
+            libc::setrlimit(libc::RLIMIT_NOFILE, &r);
+        }
+    }
+}
+
 fn main() {
+    raise_fd_limit();
     let args = parse();
     if args.driver.is_empty() {
         eprintln!("usage: cvh <driver> [--tier quick|thorough] [--shard i/n] [--out file]");
